@@ -78,8 +78,8 @@ Inductive cval := CProp (v : pval) | COrigin (o : origin) | CKids (sh : kshape) 
 Inductive op :=
 | New (dst : nat) (c : pystr) (o : origin) (ps : list (pystr * pval)) (ks : list (pystr * (kshape * list loc)))
 | Dup (dst : nat) (src : loc)
-| DcReplace (dst : nat) (src : loc) (ch : list (pystr * cval))     (* dataclasses.replace(x, **ch) *)
-| Replace (dst : nat) (src : loc) (ch : list (pystr * cval))       (* x.replace(**ch) *)
+| DcReplace (dst : nat) (src : loc) (ch : list (pystr * cval))     (* dataclasses.replace *)
+| Replace (dst : nat) (src : loc) (ch : list (pystr * cval))       (* x.replace *)
 | Detach (x : loc)
 | DetachSelf (x : loc)
 | Drop (v : nat)                                                    (* del variable (+ gc.collect()) *)
@@ -179,7 +179,7 @@ Section Machine.
   Definition detach (s : st) (a : nat) : st :=
     fold_left (fun s x => fst (detach_self s x)) (tree_of s a) s.
 
-  (* duplicate: children first (iter_child_fields order, left to right), then replace(self, **changes) *)
+  (* duplicate: children first (iter_child_fields order, left to right), then dataclasses.replace of self with the copies *)
   Fixpoint dup (fuel : nat) (s : st) (a : nat) : option (st * nat) :=
     match fuel with
     | 0 => None
@@ -197,7 +197,248 @@ Section Machine.
       end
     end.
 
-  (* the argument check of a construction / dataclasses.replace *)
-  Definition resolve_all (s : st) (ls : list loc) : option (list nat) := map_opt_l (resolve s) ls
-  with_nothing.
+  (* ---------- arguments of constructions ---------- *)
+  Fixpoint mapO {A B} (f : A -> option B) (l : list A) : option (list B) :=
+    match l with
+    | [] => Some []
+    | x :: r => match f x, mapO f r with Some y, Some t => Some (y :: t) | _, _ => None end
+    end.
+  Inductive res (A : Type) := RSkip | RBad | ROk (x : A).
+  Arguments RSkip {A}. Arguments RBad {A}. Arguments ROk {A} x.
+
+  Definition kind_of (c : pystr) (name : pystr) : option ckind :=
+    match find (fun f => pystr_eqb (fd_name f) name) (child_fields ct c) with
+    | Some f => Some (child_kind f)
+    | None => None
+    end.
+
+  (* one child-field value given by locators *)
+  Definition kid_value (s : st) (c name : pystr) (sh : kshape) (ls : list loc) : res (kshape * list nat) :=
+    match kind_of c name with
+    | None => RBad
+    | Some k => if shape_okr k sh (length ls)
+                then match mapO (resolve s) ls with Some l => ROk (sh, l) | None => RSkip end
+                else RBad
+    end.
+
+  Fixpoint res_map {A B} (f : A -> res B) (l : list A) : res (list B) :=
+    match l with
+    | [] => ROk []
+    | x :: r => match f x with
+                | RBad => RBad
+                | RSkip => match res_map f r with RBad => RBad | _ => RSkip end
+                | ROk y => match res_map f r with RBad => RBad | RSkip => RSkip | ROk t => ROk (y :: t) end
+                end
+    end.
+
+  (* the constructor call with every field of the class, in declaration order *)
+  Definition new_args (s : st) (c : pystr) (ps : list (pystr * pval)) (ks : list (pystr * (kshape * list loc)))
+    : res kidsr :=
+    match find_class ct c with
+    | None => RBad
+    | Some _ =>
+      if zip_ok (fun f p => pystr_eqb (fd_name f) (fst p)) (prop_fields ct c) ps
+         && zip_ok (fun f (k : pystr * (kshape * list loc)) => pystr_eqb (fd_name f) (fst k)) (child_fields ct c) ks
+      then res_map (fun k : pystr * (kshape * list loc) =>
+                      match kid_value s c (fst k) (fst (snd k)) (snd (snd k)) with
+                      | ROk v => ROk (fst k, v) | RSkip => RSkip | RBad => RBad end) ks
+      else RBad
+    end.
+
+  (* ---------- dataclasses.replace ---------- *)
+  Fixpoint nodup_keys (l : list pystr) : bool :=
+    match l with [] => true | x :: r => negb (smemb x r) && nodup_keys r end.
+
+  (* the changes with child locators resolved; ill-typed values for known init fields are inadmissible *)
+  Inductive rval := VProp (v : pval) | VOrigin (o : origin) | VKids (v : kshape * list nat).
+  Definition change_value (s : st) (c : pystr) (e : pystr * cval) : res (pystr * rval) :=
+    let name := fst e in
+    match find (fun f => pystr_eqb (fd_name f) name) (all_fields ct c) with
+    | None => (* unknown key: any value, TypeError later *)
+        match snd e with
+        | CKids sh ls => match mapO (resolve s) ls with Some l => ROk (name, VKids (sh, l)) | None => RSkip end
+        | CProp v => ROk (name, VProp v)
+        | COrigin o => ROk (name, VOrigin o)
+        end
+    | Some f =>
+      if negb (fd_init f) then
+        match snd e with
+        | CKids sh ls => match mapO (resolve s) ls with Some l => ROk (name, VKids (sh, l)) | None => RSkip end
+        | CProp v => ROk (name, VProp v)
+        | COrigin o => ROk (name, VOrigin o)
+        end
+      else if pystr_eqb name (lit "origin") then
+        match snd e with COrigin o => ROk (name, VOrigin o) | _ => RBad end
+      else match fd_role f, snd e with
+           | RProp, CProp v => ROk (name, VProp v)
+           | RChild _, CKids sh ls =>
+               match kid_value s c name sh ls with ROk v => ROk (name, VKids v) | RSkip => RSkip | RBad => RBad end
+           | _, _ => RBad
+           end
+    end.
+  Definition changes (s : st) (c : pystr) (ch : list (pystr * cval)) : res (list (pystr * rval)) :=
+    if nodup_keys (map fst ch) then res_map (change_value s c) ch else RBad.
+
+  (* the loop over fields(obj): a non-init field named in changes raises ValueError; then the constructor
+     call raises TypeError for a keyword that is no field *)
+  Definition dc_check (c : pystr) (ks : list pystr) : option errkind :=
+    let fs := all_fields ct c in
+    if existsb (fun f => negb (fd_init f) && smemb (fd_name f) ks) fs then Some EValue
+    else if existsb (fun k => negb (smemb k (map fd_name fs))) ks then Some EType
+    else None.
+
+  (* changes[f.name] = getattr(obj, f.name) for the init fields not named *)
+  Definition new_origin (c : cell) (ch : list (pystr * rval)) : origin :=
+    match assoc (lit "origin") ch with Some (VOrigin o) => o | _ => k_org c end.
+  Definition new_props (c : cell) (ch : list (pystr * rval)) : list (pystr * pval) :=
+    map (fun p => match assoc (fst p) ch with Some (VProp v) => (fst p, v) | _ => p end) (k_props c).
+  Definition new_kids (c : cell) (ch : list (pystr * rval)) : kidsr :=
+    map (fun k => match assoc (fst k) ch with Some (VKids v) => (fst k, v) | _ => k end) (k_kids c).
+
+  Definition dc_replace (s : st) (a : nat) (ch : list (pystr * rval)) : st * obs :=
+    match cell_at s a with
+    | None => (s, Skipped)
+    | Some c =>
+      match dc_check (k_cls c) (map fst ch) with
+      | Some e => (s, Raised e)
+      | None => match alloc s (k_cls c) (new_origin c ch) (new_props c ch) (new_kids c ch) with
+                | Some (s', a') => (s', OkNode a')
+                | None => (s, FuelOut)
+                end
+      end
+    end.
+
+  Definition dict_set (k : pystr) (v : nat) (r : list (pystr * nat)) : list (pystr * nat) := (k, v) :: remove_id k r.
+
+  (* ASTNode.replace: ori_n = self if self.detach_self() else None (before the repair: the popped entry,
+     whoever it was); on an exception NODE_REGISTRY[ori_n.id] = ori_n *)
+  Definition replace (s : st) (a : nat) (ch : list (pystr * rval)) : st * obs :=
+    match cell_at s a with
+    | None => (s, Skipped)
+    | Some c =>
+      let ori := match lookup (k_id c) (reg s) with
+                 | Some b => if fixed && negb (Nat.eqb a b) then None else Some b
+                 | None => None
+                 end in
+      let s1 := fst (detach_self s a) in
+      match dc_replace s1 a ch with
+      | (s2, Raised e) =>
+          match ori with
+          | Some b => let i := match cell_at s b with Some cb => k_id cb | None => k_id c end in
+                      (set_reg s2 (dict_set i b (reg s2)) (det s), Raised e)
+          | None => (s2, Raised e)
+          end
+      | r => r
+      end
+    end.
+
+  Definition finish (dst : nat) (r : st * obs) : st * obs :=
+    match r with
+    | (s, OkNode a) => (gc (set_var s dst (Some a)), OkNode a)
+    | _ => r
+    end.
+
+  Definition step (s : st) (o : op) : st * obs :=
+    match o with
+    | New dst c og ps ks =>
+      if negb (Nat.ltb dst (length (vars s))) then (s, Bad) else
+      match new_args s c ps ks with
+      | RBad => (s, Bad)
+      | RSkip => (s, Skipped)
+      | ROk ks' => match alloc s c og ps ks' with
+                   | Some (s', a) => finish dst (s', OkNode a)
+                   | None => (s, FuelOut)
+                   end
+      end
+    | Dup dst src =>
+      if negb (Nat.ltb dst (length (vars s))) then (s, Bad) else
+      match resolve s src with
+      | None => (s, Skipped)
+      | Some a => match dup (length (heap s)) s a with
+                  | Some (s', a') => finish dst (s', OkNode a')
+                  | None => (s, FuelOut)
+                  end
+      end
+    | DcReplace dst src ch =>
+      if negb (Nat.ltb dst (length (vars s))) then (s, Bad) else
+      match resolve s src with
+      | None => (s, Skipped)
+      | Some a =>
+        match cell_at s a with
+        | None => (s, Skipped)
+        | Some c => match changes s (k_cls c) ch with
+                    | RBad => (s, Bad)
+                    | RSkip => (s, Skipped)
+                    | ROk ch' => finish dst (dc_replace s a ch')
+                    end
+        end
+      end
+    | Replace dst src ch =>
+      if negb (Nat.ltb dst (length (vars s))) then (s, Bad) else
+      match resolve s src with
+      | None => (s, Skipped)
+      | Some a =>
+        match cell_at s a with
+        | None => (s, Skipped)
+        | Some c => match changes s (k_cls c) ch with
+                    | RBad => (s, Bad)
+                    | RSkip => (s, Skipped)
+                    | ROk ch' => finish dst (replace s a ch')
+                    end
+        end
+      end
+    | Detach x =>
+      match resolve s x with
+      | None => (s, Skipped)
+      | Some a => (detach s a, OkNone)
+      end
+    | DetachSelf x =>
+      match resolve s x with
+      | None => (s, Skipped)
+      | Some a => let (s', b) := detach_self s a in (s', OkBool b)
+      end
+    | Drop v => (gc (set_var s v None), OkNone)
+    | Read x _ =>
+      match resolve s x with
+      | None => (s, Skipped)
+      | Some _ => (s, OkNone)
+      end
+    end.
+
+  Definition run (s : st) (l : list op) : st := fold_left (fun s o => fst (step s o)) l s.
+
+  (* ---------- lookups: get_any, get ---------- *)
+  Definition get_any (s : st) (i : pystr) : option nat := lookup i (reg s).
+  Definition get (s : st) (cls : pystr) (i : pystr) (strict : bool) : option nat :=
+    match lookup i (reg s) with
+    | None => None
+    | Some a =>
+      match cell_at s a with
+      | None => None
+      | Some c => if strict then (if pystr_eqb (k_cls c) cls then Some a else None)
+                  else (if subclass ct (k_cls c) cls then Some a else None)
+      end
+    end.
+
+  (* _eq_fn: same class, same content_id, same origin, then origins pairwise along zip(dfs, dfs, strict=True);
+     None = the ValueError of zip when the two walks have different lengths *)
+  Fixpoint zip_origins (s : st) (la lb : list nat) : option bool :=
+    match la, lb with
+    | [], [] => Some true
+    | x :: la', y :: lb' =>
+      match cell_at s x, cell_at s y with
+      | Some cx, Some cy => if origin_eqb (k_org cx) (k_org cy) then zip_origins s la' lb' else Some false
+      | _, _ => None
+      end
+    | _, _ => None
+    end.
+  Definition node_eq (s : st) (a b : nat) : option bool :=
+    match cell_at s a, cell_at s b with
+    | Some ca, Some cb =>
+      if pystr_eqb (k_cls ca) (k_cls cb) && pystr_eqb (k_cid ca) (k_cid cb) && origin_eqb (k_org ca) (k_org cb)
+      then zip_origins s (tl (tree_of s a)) (tl (tree_of s b))
+      else Some false
+    | _, _ => None
+    end.
 End Machine.
+Arguments RSkip {A}. Arguments RBad {A}. Arguments ROk {A} x.
